@@ -554,6 +554,20 @@ pub fn random_units(rng: &mut Rng, max_lines: usize, invalid: bool) -> Vec<Vec<u
     u
 }
 
+
+/// the same text made pure ASCII (every third random text): non-ASCII words become short ASCII words, non-ASCII
+/// separators become one of the ASCII separators on which `u8::is_ascii_whitespace` and `char::is_whitespace`
+/// DISAGREE (VT) or agree (FF, TAB, space) -- an all-ASCII input is what an ASCII fast path of a tokenizer sees
+fn asciify(units: &mut [Vec<u8>]) {
+    for u in units.iter_mut() {
+        if !u.is_ascii() {
+            let k = u.iter().fold(0usize, |a, &b| a.wrapping_mul(31).wrapping_add(b as usize));
+            let ws = std::str::from_utf8(u).map(|s| s.chars().all(char::is_whitespace)).unwrap_or(false);
+            *u = if ws { [&b" "[..], b"\x0b", b"\x0c", b"\t", b"\x0b "][k % 5].to_vec() } else { [&b"q"[..], b"zz", b"a1", b"Q-r"][k % 4].to_vec() };
+        }
+    }
+}
+
 /// a few unit-level edits
 fn edit_units(rng: &mut Rng, base: &[Vec<u8>], edits: usize, invalid: bool) -> Vec<Vec<u8>> {
     let mut v = base.to_vec();
@@ -650,7 +664,11 @@ pub fn suite_tok(ctx: &mut Ctx) {
         let mut rng = case_rng(ctx, 0x70c, i as u64);
         let invalid = i % 3 == 2;
         let lines = if i % 10 == 0 { max_lines * 4 } else { max_lines };
-        let text = concat(&random_units(&mut rng, lines, invalid));
+        let mut units = random_units(&mut rng, lines, invalid);
+        if i % 3 == 1 {
+            asciify(&mut units);
+        }
+        let text = concat(&units);
         ctx.count("tok.inputs.random");
         tok_input(ctx, &text);
     }
@@ -1287,9 +1305,14 @@ pub fn suite_text(ctx: &mut Ctx) {
         }
         let mut rng = case_rng(ctx, 0x7e87, i);
         let invalid = i % 4 == 3;
-        let base = random_units(&mut rng, 6, invalid);
+        let mut base = random_units(&mut rng, 6, invalid);
         let edits = rng.below(5);
-        let new = edit_units(&mut rng, &base, edits, invalid);
+        let mut new = edit_units(&mut rng, &base, edits, invalid);
+        if i % 3 == 1 && !invalid {
+            asciify(&mut base);
+            asciify(&mut new);
+            ctx.count("text.random_pairs.ascii_only");
+        }
         let (old, new) = (concat(&base), concat(&new));
         let c = TextCfg { kind: Kind::DIFF[(i % 5) as usize], alg: ALGS[((i / 5) % 3) as usize], nlt: NLTS[((i / 15) % 3) as usize], dl: None };
         ctx.count("text.random_pairs");
@@ -2631,12 +2654,131 @@ fn remap_case(ctx: &mut Ctx, kind: Kind, alg: Algorithm, mode: Mode, old: &[u8],
     ctx.max("remap.max_ops", ev.ops.len() as u64);
 }
 
+/// a caller-made tokenization (`TextDiff::from_slices`) of both texts, empty tokens allowed, remapped through both
+/// constructors of `TextDiffRemapper`
+fn remap_custom_case(ctx: &mut Ctx, alg: Algorithm, old: &str, old_cuts: &[usize], new: &str, new_cuts: &[usize]) {
+    let toks = |t: &str, cuts: &[usize]| -> Vec<(usize, usize)> {
+        let mut v = vec![];
+        let mut at = 0;
+        for &c in cuts {
+            v.push((at, c));
+            at = c;
+        }
+        v.push((at, t.len()));
+        v
+    };
+    let (ro, rn) = (toks(old, old_cuts), toks(new, new_cuts));
+    let ot: Vec<&str> = ro.iter().map(|&(a, b)| &old[a..b]).collect();
+    let nt: Vec<&str> = rn.iter().map(|&(a, b)| &new[a..b]).collect();
+    let ev = catch_unwind(AssertUnwindSafe(|| {
+        let diff = TextDiff::configure().algorithm(alg).diff_slices(&ot[..], &nt[..]);
+        let via = |r: &TextDiffRemapper<str>| -> Option<Vec<Vec<Slice>>> {
+            catch_unwind(AssertUnwindSafe(|| {
+                diff.ops().iter().map(|op| r.iter_slices(op).map(|(t, s)| locate(t, s.as_bytes(), old.as_bytes(), new.as_bytes())).collect::<Vec<Slice>>()).collect::<Vec<_>>()
+            }))
+            .ok()
+        };
+        let slices = via(&TextDiffRemapper::from_text_diff(&diff, old, new));
+        let slices_via_new = via(&TextDiffRemapper::new(&ot[..], &nt[..], old, new));
+        RemapEval {
+            slices,
+            slices_via_new,
+            ops: diff.ops().to_vec(),
+            old_toks: ot.iter().map(|t| t.as_bytes().to_vec()).collect(),
+            new_toks: nt.iter().map(|t| t.as_bytes().to_vec()).collect(),
+        }
+    }));
+    let ol: Vec<usize> = ot.iter().map(|t| t.len()).collect();
+    let nl: Vec<usize> = nt.iter().map(|t| t.len()).collect();
+    let ev = match ev {
+        Ok(e) => e,
+        Err(_) => {
+            let req = format!("remap | ? | {} | {}", lens_str(&ol), lens_str(&nl));
+            ctx.emit(&req, "panic");
+            ctx.violation("C17", &req, format!("diffing caller-made token slices panicked (old={} new={})", hex(old.as_bytes()), hex(new.as_bytes())));
+            return;
+        }
+    };
+    let req = remap_request(&ev.ops, &ol, &nl);
+    ctx.emit(&req, &remap_answer(&ev.slices));
+    ctx.count("remap.custom_tokenizations");
+    if ol.iter().chain(nl.iter()).any(|&l| l == 0) {
+        ctx.count("remap.custom_tokenizations.with_empty_token");
+    }
+    if ol.len() == old.len() || nl.len() == new.len() {
+        ctx.count("remap.custom_tokenizations.as_many_tokens_as_bytes");
+    }
+    if let Err(e) = check_remap(&ev, old.as_bytes(), new.as_bytes()) {
+        ctx.violation("C17", &req, format!("{} [caller-made tokens, {} old={} new={}]", e, alg_name(alg), hex(old.as_bytes()), hex(new.as_bytes())));
+    }
+    if ev.slices_via_new != ev.slices {
+        ctx.violation("C17", &req, "TextDiffRemapper::new(old_slices, new_slices, old, new) remaps differently from from_text_diff".to_string());
+    }
+    if ev.ops.len() >= 2 {
+        ctx.nontrivial(&req);
+    }
+}
+
+/// random cut points at char boundaries (repeats = empty tokens); with `pad`, as many tokens as the text has bytes
+fn random_cuts(rng: &mut Rng, t: &str, pad: bool) -> Vec<usize> {
+    let bounds: Vec<usize> = (1..t.len()).filter(|&i| t.is_char_boundary(i)).collect();
+    let mut cuts: Vec<usize> = bounds.iter().copied().filter(|_| rng.chance(1, 3)).collect();
+    if pad {
+        // tokens = cuts + 1; add empty tokens (repeated cut points, or cuts at 0 / len) until tokens == bytes
+        while cuts.len() + 1 < t.len() {
+            let c = if rng.chance(1, 3) || cuts.is_empty() { [0, t.len()][rng.below(2)] } else { cuts[rng.below(cuts.len())] };
+            cuts.push(c);
+        }
+        while cuts.len() + 1 > t.len() && !cuts.is_empty() {
+            cuts.pop();
+        }
+    } else if rng.chance(1, 3) && !cuts.is_empty() {
+        let c = cuts[rng.below(cuts.len())];
+        cuts.push(c);
+    }
+    cuts.sort();
+    cuts
+}
+
+/// Implementation only: fewer than 65 535 tokens on each side but more than 65 536 distinct tokens on the two sides
+/// together, through the one-call helpers and the remapper (C17: they reconstruct both texts, return no empty slice
+/// and never panic -- whatever the width of the integers the tokens are mapped to)
+fn remap_many_distinct_tokens(ctx: &mut Ctx) {
+    let n = 65_000usize;
+    let old: String = (0..n).map(|i| format!("{}\n", i)).collect();
+    let new: String = (0..n).map(|i| if i % 100 == 7 { format!("n{}\n", i) } else { format!("{}\n", i) }).collect();
+    for (alg, which) in [(Algorithm::Myers, "lines"), (Algorithm::Patience, "words")] {
+        let req = format!("helper {} str {} | <{} distinct lines> | <every 100th line replaced by a fresh one: 65650 distinct lines in all> | - | -", which, alg_name(alg), n);
+        ctx.count("remap.many_distinct_tokens_cases");
+        let r = catch_unwind(AssertUnwindSafe(|| {
+            let v: Vec<(ChangeTag, &str)> = if which == "lines" { similar::utils::diff_lines(alg, &old[..], &new[..]) } else { similar::utils::diff_words(alg, &old[..], &new[..]) };
+            let o: String = v.iter().filter(|(t, _)| *t != ChangeTag::Insert).map(|(_, s)| *s).collect();
+            let nn: String = v.iter().filter(|(t, _)| *t != ChangeTag::Delete).map(|(_, s)| *s).collect();
+            (o == old, nn == new, v.iter().any(|(_, s)| s.is_empty()))
+        }));
+        match r {
+            Err(_) => ctx.violation("C17", &req, "the one-call helper panicked".to_string()),
+            Ok((ok_old, ok_new, empty)) => {
+                if !ok_old || !ok_new {
+                    ctx.violation("C17", &req, format!("the returned slices do not reconstruct the {} text", if ok_old { "new" } else { "old" }));
+                }
+                if empty {
+                    ctx.violation("C17", &req, "an empty slice was returned".to_string());
+                }
+            }
+        }
+    }
+}
+
 pub fn suite_remap(ctx: &mut Ctx) {
     const PIECES: [&str; 6] = ["a", " ", "b\n", "é", "x y", "\r\n"];
     let (np, all_algs, nrand) = match ctx.tier {
         Tier::Quick => (2, true, 3000u64),
         Tier::Thorough => (3, false, 30000),
     };
+    if ctx.take() {
+        remap_many_distinct_tokens(ctx);
+    }
     let texts = small_texts(&PIECES, np);
     let mut k = 0u64;
     for old in &texts {
@@ -2663,11 +2805,23 @@ pub fn suite_remap(ctx: &mut Ctx) {
         let mut rng = case_rng(ctx, 0x4e3a9, i);
         let mode = if i % 2 == 0 { Mode::Str } else { Mode::Bytes };
         let invalid = mode == Mode::Bytes && i % 4 == 1;
-        let base = random_units(&mut rng, 5, invalid);
+        let mut base = random_units(&mut rng, 5, invalid);
         let edits = rng.below(5);
-        let new = edit_units(&mut rng, &base, edits, invalid);
+        let mut new = edit_units(&mut rng, &base, edits, invalid);
+        if i % 3 == 2 && !invalid {
+            asciify(&mut base);
+            asciify(&mut new);
+        }
         ctx.count("remap.random_pairs");
         remap_case(ctx, Kind::DIFF[(i % 5) as usize], ALGS[((i / 5) % 3) as usize], mode, &concat(&base), &concat(&new));
+        if !invalid && i % 2 == 0 {
+            // the same texts cut into caller-made tokens (fields and separators, empty fields included)
+            let (o, n) = (concat(&base), concat(&new));
+            let (o, n) = (as_str(&o), as_str(&n));
+            let pad = i % 4 == 0;
+            let (oc, nc) = (random_cuts(&mut rng, o, pad), random_cuts(&mut rng, n, pad && i % 8 == 0));
+            remap_custom_case(ctx, ALGS[((i / 5) % 3) as usize], o, &oc, n, &nc);
+        }
     }
     // both sides of the size at which TextDiff maps tokens to integers (100 tokens): long runs of identical
     // tokens with an edit inside a run (the shape on which prefix/suffix handling can overlap)
@@ -2882,6 +3036,29 @@ pub fn suite_close(ctx: &mut Ctx) {
                 let mut rng = case_rng(ctx, 0xc1053 + (la * 32 + lb) as u64, rep);
                 let alpha: &[char] = if rep % 2 == 0 { &ALPHA2 } else { &ALPHA3 };
                 let long: Vec<char> = (0..la).map(|_| alpha[rng.below(alpha.len())]).collect();
+                // the same lengths with a word of pairwise DISTINCT characters (only then does the multiset pre-filter
+                // count exactly the real matches, so that a candidate sits exactly ON the cutoff in both filters)
+                {
+                    let mut pool: Vec<char> = ('a'..='z').chain(['é', 'ß', '\u{20ac}', '\u{1f600}']).collect();
+                    let mut dl: Vec<char> = vec![];
+                    for _ in 0..la {
+                        let c = pool.remove(rng.below(pool.len()));
+                        dl.push(c);
+                    }
+                    let mut keep: Vec<usize> = (0..la).collect();
+                    while keep.len() > lb {
+                        let i = rng.below(keep.len());
+                        keep.remove(i);
+                    }
+                    let short: String = keep.iter().map(|&i| dl[i]).collect();
+                    let long: String = dl.into_iter().collect();
+                    for (word, cand) in [(&long, &short), (&short, &long)] {
+                        let other = mutate(&mut rng, cand, &ALPHA2);
+                        let refs: Vec<&str> = vec![other.as_str(), cand.as_str()];
+                        ctx.count("close.distinct_subsequence_cases");
+                        close_case(ctx, word, &refs, 1 + rng.below(2), char_ratio(word, cand));
+                    }
+                }
                 // a subsequence of length lb
                 let mut keep: Vec<usize> = (0..la).collect();
                 while keep.len() > lb {
@@ -3179,6 +3356,7 @@ fn determinism_case(ctx: &mut Ctx, c: &Case, workers: &Workers, fresh_threads: b
 /// only, every run must give the ops of the first one.
 fn big_determinism_cases(ctx: &mut Ctx, workers: &Workers) {
     let halves: &[u32] = if ctx.tier == Tier::Quick { &[3000, 5000] } else { &[3000, 5000, 9000, 20000] };
+    let mut inputs: Vec<(Algorithm, u32, Vec<u32>, Vec<u32>, String)> = vec![];
     for &half in halves {
         for alg in [Algorithm::Patience, Algorithm::Myers] {
             if alg == Algorithm::Myers && half > 3000 {
@@ -3188,8 +3366,28 @@ fn big_determinism_cases(ctx: &mut Ctx, workers: &Workers) {
             let b: Vec<u32> = (half..2 * half).collect();
             let old: Vec<u32> = a.iter().chain(b.iter()).copied().collect();
             let new: Vec<u32> = b.iter().chain(a.iter()).copied().collect();
+            let what = format!("<blocks A B of {} distinct items each> | <B A>", half);
+            inputs.push((alg, half, old, new, what));
+        }
+    }
+    // anchor-SENSITIVE inputs with far more unique items than any plausible cap on the anchor lists: n blocks
+    // `S_i U_i r r r` against `S_i r r r U_i` (S_i, U_i unique, r repeated). Every S_i and U_i is an anchor; WHICH of
+    // them are used decides how the block between them is aligned, so a subset picked in hash-map order (a cap, a
+    // sample, a fast path) shows as run-to-run / thread / salt / relabelling differences
+    let blocks: &[u32] = if ctx.tier == Tier::Quick { &[9000] } else { &[9000, 24000] };
+    for &n in blocks {
+        let (mut old, mut new) = (vec![], vec![]);
+        for i in 0..n {
+            old.extend_from_slice(&[10 + 2 * i, 11 + 2 * i, 1, 1, 1]);
+            new.extend_from_slice(&[10 + 2 * i, 1, 1, 1, 11 + 2 * i]);
+        }
+        let what = format!("<{} blocks S_i U_i r r r> | <{} blocks S_i r r r U_i>", n, n);
+        inputs.push((Algorithm::Patience, n, old, new, what));
+    }
+    {
+        for (alg, half, old, new, what) in inputs {
             let c = Case::full(alg, &old, &new);
-            let req = format!("capture {} - 0 | <blocks A B of {} distinct items each> | <B A> | 0 {} 0 {}", alg_name(alg), half, old.len(), new.len());
+            let req = format!("capture {} - 0 | {} | 0 {} 0 {}", alg_name(alg), what, old.len(), new.len());
             ctx.count("determinism.big_cases");
             let ops = match run_capture(&c).ops {
                 Some(o) => o,
